@@ -33,14 +33,30 @@ def _snap_eps(sl):
     """the literal `eps` of `abs(frames - nearest) <= eps * max(1.0, abs(frames))` inside
     sequence_to_pianoroll.time_to_frames, read from the source (None if the snap is not there)."""
     tree = ast.parse(textwrap.dedent(inspect.getsource(sl.sequence_to_pianoroll)))
+    # float constants bound to a name inside the function (a maintainer's "name the magic number" refactoring)
+    local_consts = {}
+    for a in ast.walk(tree):
+        if isinstance(a, ast.Assign) and len(a.targets) == 1 and isinstance(a.targets[0], ast.Name) \
+                and isinstance(a.value, ast.Constant) and isinstance(a.value.value, float):
+            local_consts.setdefault(a.targets[0].id, []).append(a.value.value)
+
+    def value(e):
+        if isinstance(e, ast.Constant) and isinstance(e.value, float):
+            return e.value
+        if isinstance(e, ast.Name):
+            if len(local_consts.get(e.id, [])) == 1:
+                return local_consts[e.id][0]
+            v = getattr(sl, e.id, None)
+            if isinstance(v, float):
+                return v
+        return None
     for fn in ast.walk(tree):
         if isinstance(fn, ast.FunctionDef) and fn.name == 'time_to_frames':
             for c in ast.walk(fn):
                 if (isinstance(c, ast.Compare) and len(c.ops) == 1 and isinstance(c.ops[0], ast.LtE)
                         and isinstance(c.comparators[0], ast.BinOp) and isinstance(c.comparators[0].op, ast.Mult)
-                        and isinstance(c.comparators[0].left, ast.Constant)
-                        and isinstance(c.comparators[0].left.value, float)):
-                    return c.comparators[0].left.value
+                        and value(c.comparators[0].left) is not None):
+                    return value(c.comparators[0].left)
     return None
 
 
